@@ -145,6 +145,8 @@ def streamed_extra(f):
     extra = 0
     uses_text = 0
     found = False
+    lossy = []
+    f._lossy_text_views = lossy
     for c in f.calls():
         if c.get('k') != 'CXXOperatorCallExpr' or c.get('op') != '<<':
             continue
@@ -163,6 +165,11 @@ def streamed_extra(f):
         rhs = strip_all_casts(args[1])
         if rhs.get('k') == 'DeclRefExpr' and rhs['ref'].get('name') == text_param:
             uses_text += 1
+        elif rhs.get('k') == 'CXXMemberCallExpr' and (rhs.get('callee') or '').split('::')[-1] in ('c_str', 'data') and \
+                (object_of(rhs) or {}).get('k') == 'DeclRefExpr' and object_of(rhs)['ref'].get('name') == text_param:
+            # a C-string view of the text ends at the first NUL byte: the message would be truncated in the file while
+            # the size accounting uses length()
+            lossy.append(f.loc(c))
         elif rhs.get('k') == 'DeclRefExpr' and rhs['ref'].get('q') in ('std::endl',):
             extra += 1
         elif rhs.get('k') == 'CharacterLiteral':
@@ -181,6 +188,10 @@ def r3(chk, prog):
     wm = prog.one('celma::log::files::PolicyBase', 'writeMessage')
     uses_text, extra = streamed_extra(wm)
     chk.check(uses_text == 1, 'R3', wm.name, 'the message text is written exactly once', wm.loc())
+    for where in wm._lossy_text_views:
+        chk.check(False, 'R3', wm.name, 'the message text is streamed as std::string with its full length (no C-string '
+                  'view that ends at an embedded NUL)', where,
+                  'writeCheck()/written() account for length() bytes, the file would get fewer: truncated message')
     n = 0
     for cls in policy_classes(prog):
         m = {f.short: f for f in prog.functions if f.cls == cls}
